@@ -59,16 +59,20 @@ Definition reset_fragment (r : reader) : reader :=
       (r_opcode r) false 0 (r_masked r) (r_key r) (r_cpos r) false (r_u8state r) (r_u8acc r) (r_log r).
 
 (* ------------------------------------------------------------------ layers *)
-(* io.LimitedReader.Read with len p = k > 0 *)
+(* limitedReader.Read with len p = k > 0: like io.LimitedReader, but the end of
+   the source before N bytes were read is io.ErrUnexpectedEOF *)
+Definition cut_err (e : option rerr) : option rerr :=
+  match e with Some EEOF => Some EUnexpected | e => e end.
 Definition raw_read (k : N) (r : reader) : (list byte * option rerr) * reader :=
   if r_rawN r =? 0 then (([], Some EEOF), r)
   else
     let '((b, e), s') := read1 (N.min k (r_rawN r)) (r_src r) in
-    ((b, e), mkR s' (r_state r) (r_skip r) (r_check_utf8 r) (r_max r) (r_ext r) (r_compressed r) (r_cb r)
+    ((b, cut_err e), mkR s' (r_state r) (r_skip r) (r_check_utf8 r) (r_max r) (r_ext r) (r_compressed r) (r_cb r)
                  (r_opcode r) (r_frame r) (r_rawN r - len b) (r_masked r) (r_key r) (r_cpos r)
                  (r_u8wrap r) (r_u8state r) (r_u8acc r) (r_log r)).
 
-(* io.Copy(ioutil.Discard, &r.raw): consumes min(N, available); EOF is success *)
+(* io.Copy(ioutil.Discard, &r.raw): consumes min(N, available); a source that ends
+   early is io.ErrUnexpectedEOF (limitedReader) *)
 Definition raw_drain (r : reader) : option rerr * reader :=
   let '((b, e), s') := read_full (r_rawN r) (r_src r) in
   let r' := mkR s' (r_state r) (r_skip r) (r_check_utf8 r) (r_max r) (r_ext r) (r_compressed r) (r_cb r)
@@ -76,7 +80,8 @@ Definition raw_drain (r : reader) : option rerr * reader :=
                 (r_u8wrap r) (r_u8state r) (r_u8acc r) (r_log r) in
   match e with
   | Some EFail => (Some EFail, r')
-  | _ => (None, r')
+  | Some _ => (Some EUnexpected, r')
+  | None => (None, r')
   end.
 
 (* frame.Read(p), len p = k: raw -> [cipher] -> [utf8]; returns the n bytes
@@ -122,7 +127,8 @@ Definition cb_read_all (h : header) (masked : bool) (key : list byte) (r : reade
                 (r_u8wrap r) (r_u8state r) (r_u8acc r) log in
   match e with
   | Some EFail => (Some (RIo EFail), mk (r_log r))
-  | _ => (None, mk (r_log r ++ [mkEv (h_op h) data true (r_compressed r)]))
+  | Some _ => (Some (RIo EUnexpected), mk (r_log r))
+  | None => (None, mk (r_log r ++ [mkEv (h_op h) data true (r_compressed r)]))
   end.
 
 Definition zero_header : header := mkHeader false 0 0 false zero_mask 0.
